@@ -29,7 +29,8 @@ Mirrored as written (param/parameterized.py):
     parameter and every sub-path value of the old and the new object compare equal (`None` object →
     `Undefined`, which equals nothing).
 
-Not modelled: batching (every assignment is dispatched at once), slots (`what != 'value'`),
+Batching is modelled for one form: `o.param.update(…)` / `batch_call_watchers(o)` around assignments to
+`o` itself, no batch open before.  Not modelled: nested batches, slots (`what != 'value'`),
 `'….param'` below depth 1 and path elements that are not object-valued (rejected: `illFormed`).
 An exception of the LIBRARY (rejected value, unresolvable dependency) ends the history; an exception
 raised by a dependent method's body leaves the dispatch loop (`raised`) and the history goes on.
@@ -436,14 +437,93 @@ def newObj (w : PWorld) (cls : Nat) (vals : List (Name × Val)) : Except PErr PW
       let o := w.objs.length
       updateDeps { w with objs := w.objs ++ [⟨cls, vals⟩] } o none true
 
+/-! ### batched assignments on one object: `o.param.update(k1=v1, …)` / `with batch_call_watchers(o): …` -/
+
+/-- a queued event (`_events` of the object being updated) -/
+structure QEv where
+  name : Name
+  old : Val
+  new : Val
+  deriving Repr, DecidableEq
+
+/-- src: _call_watcher with `_BATCH_WATCH` set, for every watcher of the assigned parameter: the
+changes-only filter, then the event is appended and the watcher queued unless already there (identity) -/
+def queueWatchers (evs : List QEv) (q : List DW) (e : QEv) : List DW → List QEv × List DW
+  | [] => (evs, q)
+  | x :: rest =>
+    if valEq e.old e.new then queueWatchers evs q e rest
+    else queueWatchers (evs ++ [e]) (if q.any (fun y => y.id = x.id) then q else q ++ [x]) e rest
+
+/-- one `setattr(o, p, v)` of the batch: validate, store, `o.param._update_deps(p)` — at once, also while
+batching —, then queue.  src: Parameter.__set__ -/
+def setBatched (w : PWorld) (o : Oid) (evs : List QEv) (q : List DW) (p : Name) (v : Val) :
+    Except PErr (PWorld × List QEv × List DW) :=
+  match w.objs[o]?, classOf w o with
+  | some ob, some c =>
+    if p = "name" then .error .type_
+    else if !accepts w c p v then .error .value
+    else
+      match lookupVal ob.vals p with
+      | none => .error .illFormed
+      | some old =>
+        let w1 := { w with objs := w.objs.set o { ob with vals := setVals ob.vals p v } }
+        match updateDeps w1 o (some p) false with
+        | .error e => .error e
+        | .ok w2 =>
+          let (evs', q') := queueWatchers evs q ⟨p, old, v⟩ (w2.watchers.filter (fun x => x.on = o && x.params.contains p))
+          .ok (w2, evs', q')
+  | _, _ => .error .illFormed
+
+def setAllBatched (w : PWorld) (o : Oid) : List QEv → List DW → List (Name × Val) → Except PErr (PWorld × List QEv × List DW)
+  | evs, q, [] => .ok (w, evs, q)
+  | evs, q, (p, v) :: rest =>
+    match setBatched w o evs q p v with
+    | .error e => .error e
+    | .ok (w1, evs1, q1) => setAllBatched w1 o evs1 q1 rest
+
+/-- `event_dict[(name, what)]`: the last event queued for the name -/
+def lastEv (evs : List QEv) (n : Name) : Option QEv := evs.reverse.find? (fun e => e.name = n)
+
+/-- src: _skip_event over all the events handed to the watcher: skip iff EVERY event has sub-paths in
+the filter and all of them compare equal -/
+def skipEvents (w : PWorld) (changed : Changed) (evs : List QEv) : Bool :=
+  evs.all (fun e => skipEvent w changed e.name e.old e.new)
+
+/-- one queued watcher at the flush: its events in the order of its `parameter_names`; callback, filter, method -/
+def flushWatcher (w : PWorld) (x : DW) (dict : List QEv) : Except PErr PWorld :=
+  let evs := x.params.filterMap (lastEv dict)
+  let r := match x.callback with
+    | some attr => updateDeps w x.owner attr false
+    | none => .ok w
+  match r with
+  | .error e => .error e
+  | .ok w1 => if skipEvents w1 x.changed evs then .ok w1 else .ok (invoke w1 x)
+
+def flushQueue (w : PWorld) (dict : List QEv) : List DW → Except PErr PWorld
+  | [] => .ok w
+  | x :: rest =>
+    match flushWatcher w x dict with
+    | .error e => .error e
+    | .ok w1 => if w1.raised then .ok w1 else flushQueue w1 dict rest
+
+/-- src: Parameters._update (no batch open): set the flag, assign the keys in order, restore the flag,
+flush — every queued watcher once (also one that has been unwatched meanwhile: the queue holds the
+watcher objects).  The methods assign nothing, so the second round of `while self_._events` is empty. -/
+def updateObj (w : PWorld) (o : Oid) (kvs : List (Name × Val)) : Except PErr PWorld :=
+  match setAllBatched w o [] [] kvs with
+  | .error e => .error e
+  | .ok (w1, evs, q) => if evs.isEmpty then .ok w1 else flushQueue w1 evs q
+
 inductive Step
   | new (cls : Nat) (vals : List (Name × Val))
   | set (o : Oid) (p : Name) (v : Val)
+  | update (o : Oid) (kvs : List (Name × Val))      -- distinct keys
   deriving Repr, DecidableEq
 
 def runStep (w : PWorld) : Step → Except PErr PWorld
   | .new cls vals => newObj w cls vals
   | .set o p v => setParam w o p v
+  | .update o kvs => updateObj w o kvs
 
 /-- a spec is inside the model: a non-empty path of object-valued parameters, `param` only at depth 1 -/
 def wfSpecB (s : PathSpec) : Bool := !s.path.isEmpty && (s.leaf != "param" || s.path.length == 1)
